@@ -19,6 +19,12 @@ import SonicSpec.Proofs.StrDenote
 import SonicSpec.Proofs.StrHtml
 import SonicSpec.Proofs.StrUtf8
 import SonicSpec.Proofs.StrHtmlDenote
+import SonicSpec.Model.StrDbl
+import SonicSpec.Model.StrStd
+import SonicSpec.Proofs.StrDbl
+import SonicSpec.Proofs.StrBits
+import SonicSpec.Proofs.StrUtf8Dec
+import SonicSpec.Proofs.StrHtmlStd
 namespace SonicSpec.Props.C20
 open SonicSpec SonicSpec.Str
 
@@ -134,6 +140,77 @@ example : ¬ ∃ o, Denotes true [92, 113] o :=
   (unquote_rejects_iff true _).mp ⟨.escape, by decide +kernel⟩
 example : unquote true false [200, 1, 34] = .ok [200, 1, 34] := by decide +kernel
 
+
+/-! ## double unquoting (`,string` fields): the one-pass native routine against the two-pass definition -/
+
+/-- unquoting twice computes the inductive specification `DenotesD` (the body denotes a text which, as a
+    literal body again, denotes the result) -/
+theorem unquoteTwice_iff_denotesD (unirep : Bool) (b s : Bytes) :
+    unquoteTwice unirep b = .ok s ↔ DenotesD unirep b s :=
+  unquoteTwice_ok_iff unirep b s
+
+/-- where they agree: on the minimal escaping (`\` → `\\`, `"` → `\"`) of every literal body in which no unpaired
+    surrogate escape is directly followed by another escape, the one-pass routine (model of native unquote with
+    F_DOUBLE_UNQUOTE) succeeds exactly when unquoting twice does, with the same bytes -/
+theorem unquoteD_agrees_on_escaped (unirep : Bool) (m : Bytes) (h : LitBodyD m) :
+    okPart (unquote unirep true (escapeAgain m)) = okPart (unquoteTwice unirep (escapeAgain m)) := by
+  rw [unquoteTwice_escapeAgain]
+  exact unquoteD_escapeAgain' unirep m.length m (Nat.le_refl _) h
+
+/-- soundness of the one-pass routine on those inputs, against the (strict, encoding/json) specification -/
+theorem unquoteD_sound (unirep : Bool) (m s : Bytes) (h : LitBodyD m)
+    (hu : unquote unirep true (escapeAgain m) = .ok s) : DenotesDStrict unirep (escapeAgain m) s := by
+  have := unquoteD_escapeAgain' unirep m.length m (Nat.le_refl _) h
+  rw [hu] at this
+  have h2 : unquote unirep false m = .ok s := okPart_eq_some.mp this.symm
+  exact DenotesDStrict.mk (denotes_escapeAgain unirep m) (litBody_of_litBodyD h) (unquote_sound' unirep m s h2)
+
+/-- completeness on those inputs -/
+theorem unquoteD_complete (unirep : Bool) (m s : Bytes) (h : LitBodyD m)
+    (hd : DenotesD unirep (escapeAgain m) s) : unquote unirep true (escapeAgain m) = .ok s := by
+  have h2 := unquote_complete' ((denotesD_escapeAgain_iff unirep m s).mp hd)
+  have := unquoteD_escapeAgain' unirep m.length m (Nat.le_refl _) h
+  rw [h2] at this
+  exact okPart_eq_some.mp this
+
+/-- everything Marshal writes for a `,string` field lies in that class -/
+theorem quoteD_image_is_escaped (s : Bytes) :
+    quoteBodyD s = escapeAgain (quoteBody s) ∧ LitBodyD (quoteBody s) :=
+  ⟨quoteBodyD_eq_escapeAgain s, litBodyD_quoteBody s⟩
+
+theorem unquoteD_eq_unquoteTwice_on_quoteD_image (unirep : Bool) (s : Bytes) :
+    unquote unirep true (quoteBodyD s) = unquoteTwice unirep (quoteBodyD s) := by
+  rw [unquote_quoteBodyD, unquoteTwice_quoteBodyD]
+
+/-- where they differ (finding C20-double-unquote-one-pass), kernel-checked; the same inputs are replayed
+    against the real code from corpus/C20:
+    1. a backslash written `\u005c`: one pass keeps `\n`, two passes read a newline;
+    2. a surrogate pair with single backslashes: one pass gives U+FFFD and the text `ude00`;
+    3. a single-escaped `\/` at the end of the body: one pass reports EOF;
+    4. an unpaired surrogate followed by a final `\\n` (minimal escaping of the literal body `\ud800\n`, so the
+       side condition of `unquoteD_agrees_on_escaped` cannot be dropped): one pass reports EOF;
+    5. a high surrogate followed by a malformed `\u` escape: one pass accepts it;
+    6. an unpaired surrogate followed by `\\\\a`: one pass reports an invalid character. -/
+theorem unquoteD_differs_from_unquoteTwice :
+    (unquote true true [92, 117, 48, 48, 53, 99, 110] = .ok [92, 110] ∧
+      unquoteTwice true [92, 117, 48, 48, 53, 99, 110] = .ok [10]) ∧
+    (unquote true true [92, 117, 100, 56, 51, 100, 92, 117, 100, 101, 48, 48] = .ok [239, 191, 189, 117, 100, 101, 48, 48] ∧
+      unquoteTwice true [92, 117, 100, 56, 51, 100, 92, 117, 100, 101, 48, 48] = .ok [240, 159, 152, 128]) ∧
+    (unquote true true [92, 47] = .error .eof ∧ unquoteTwice true [92, 47] = .ok [47]) ∧
+    (unquote true true (escapeAgain [92, 117, 100, 56, 48, 48, 92, 110]) = .error .eof ∧
+      unquoteTwice true (escapeAgain [92, 117, 100, 56, 48, 48, 92, 110]) = .ok [239, 191, 189, 10] ∧
+      LitBody [92, 117, 100, 56, 48, 48, 92, 110]) ∧
+    (unquote true true [92, 117, 100, 56, 51, 100, 92, 117, 44, 101, 48, 48] = .ok [239, 191, 189, 117, 44, 101, 48, 48] ∧
+      unquoteTwice true [92, 117, 100, 56, 51, 100, 92, 117, 44, 101, 48, 48] = .error .inval) ∧
+    (unquote true true (escapeAgain [92, 117, 100, 56, 48, 48, 92, 92, 97]) = .error .inval ∧
+      unquoteTwice true (escapeAgain [92, 117, 100, 56, 48, 48, 92, 92, 97]) = .ok [239, 191, 189, 92, 97]) := by
+  refine ⟨by decide +kernel, by decide +kernel, by decide +kernel, ⟨by decide +kernel, by decide +kernel, ?_⟩,
+    by decide +kernel, by decide +kernel⟩
+  exact (litBodyOk_iff _).mp (by decide +kernel)
+
+example : okPart (unquote true true (escapeAgain [92, 117, 100, 56, 51, 100, 92, 117, 100, 101, 48, 48, 92, 110, 97])) =
+    some [240, 159, 152, 128, 10, 97] := by decide +kernel
+
 /-! ## HTML escaping -/
 
 /-- `encoder.HTMLEscape(dst, src)`: the destination prefix is preserved and what is appended does not
@@ -177,7 +254,51 @@ example : unquote true false (htmlEscape [60, 92, 110, 226, 128, 168, 38]) = .ok
 example : htmlEscape [60, 226, 128, 169, 226, 128] = [92, 117, 48, 48, 51, 99, 92, 117, 50, 48, 50, 57, 226, 128] := by
   decide +kernel
 
+/-- escaping twice is escaping once -/
+theorem htmlEscape_idempotent (s : Bytes) : htmlEscape (htmlEscape s) = htmlEscape s :=
+  htmlEscape_idem s
+
+/-- `encoder.HTMLEscape` equals `encoding/json.HTMLEscape`: the model of sonic's routine and the literal
+    transliteration of GOROOT/src/encoding/json/indent.go:19-37 (`stdHtmlEscape`, Model/StrStd.lean) return the
+    same bytes for every destination prefix and every source -/
+theorem htmlEscape_eq_std (dst src : Bytes) : htmlEscapeInto dst src = stdHtmlEscape dst src := by
+  rw [stdHtmlEscape_eq, htmlEscape_preserves_prefix]
+
+example : stdHtmlEscape [7] [60, 226, 128, 169, 226, 128, 38] =
+    [7, 92, 117, 48, 48, 51, 99, 92, 117, 50, 48, 50, 57, 226, 128, 92, 117, 48, 48, 50, 54] := by decide +kernel
+
 /-! ## UTF-8 -/
+
+/-- native/utf8.h:41 `valid_utf8_4byte` with its bit masks (`seqLenBits`, Model/StrStd.lean) decides the
+    well-formedness table `seqLen` on every byte string (every byte value, every truncation) -/
+theorem seqLen_eq_utf8h_masks (s : Bytes) : seqLenBits s = seqLen s := seqLenBits_eq_seqLen s
+
+example : seqLenBits [237, 160, 128] = 0 ∧ seqLenBits [244, 143, 191, 191] = 4 ∧ seqLenBits [226, 130] = 0 := by
+  decide +kernel
+
+/-- decode ∘ encode = id on sequences of scalar values -/
+theorem decodeAll_encodeAll (cps : List Nat) (h : ∀ c ∈ cps, isScalar c = true) :
+    decodeAll (encodeAll cps) = some cps := decodeAll_encodeAll' cps h
+
+/-- encode ∘ decode = id wherever the decoder succeeds, and the decoder only yields scalar values -/
+theorem encodeAll_decodeAll (s : Bytes) (cps : List Nat) (h : decodeAll s = some cps) :
+    encodeAll cps = s ∧ ∀ c ∈ cps, isScalar c = true := encodeAll_decodeAll' s cps h
+
+/-- the validator accepts exactly the strings on which the decoder yields scalar values whose re-encoding is
+    the input -/
+theorem validate_eq_decode_all (s : Bytes) :
+    validate s = true ↔ ∃ cps, decodeAll s = some cps ∧ (∀ c ∈ cps, isScalar c = true) ∧ encodeAll cps = s := by
+  rw [validate_eq_isSome_decodeAll]
+  constructor
+  · intro h
+    obtain ⟨cps, hc⟩ := Option.isSome_iff_exists.mp h
+    obtain ⟨he, hs⟩ := encodeAll_decodeAll' s cps hc
+    exact ⟨cps, hc, hs, he⟩
+  · rintro ⟨cps, hc, _, _⟩
+    rw [hc]; rfl
+
+example : decodeAll [206, 186, 240, 159, 152, 128, 97] = some [954, 128512, 97] := by decide +kernel
+
 
 /-- `utf8.Validate` accepts exactly the encodings of sequences of Unicode scalar values
     (which is what unicode/utf8.Valid accepts) -/
@@ -204,6 +325,18 @@ theorem correctWith_valid (repl s : Bytes) (h : validate repl = true) : validate
 /-- ... and is the identity on well-formed input -/
 theorem correctWith_id_on_valid (repl s : Bytes) (h : validate s = true) : correctWith repl s = s :=
   correctWith_id_of_validate repl s h
+
+/-- what is promised when the replacement itself may be ill-formed: the result is well-formed exactly when the
+    input was (and then nothing is replaced, `correctWith_id_on_valid`) or the replacement is -/
+theorem correctWith_valid_iff (repl s : Bytes) :
+    validate (correctWith repl s) = true ↔ validate s = true ∨ validate repl = true := by
+  constructor
+  · exact correctWith_valid_imp repl s
+  · rintro (h | h)
+    · rw [correctWith_id_on_valid repl s h]; exact h
+    · exact correctWith_valid repl s h
+
+example : validate (correctWith [255] [97, 128]) = false ∧ correctWith [255] [97, 128] = [97, 255] := by decide +kernel
 
 /-- byte-wise replacement: a byte at which no well-formed sequence starts is replaced alone, a well-formed
     sequence is copied whole (the rule unicode/utf8.DecodeRune implements with RuneError, width 1) -/
